@@ -55,7 +55,9 @@ structure Defects where
   divZeroPanics : Bool := false
   /-- integer overflow panics in the worker thread (debug build) -/
   overflowPanics : Bool := false
-  /-- prefix NOT parses its operand down to AND's binding power (`NOT a AND b` = `NOT (a AND b)`) -/
+  /-- prefix NOT parses its operand down to AND's binding power (`NOT a AND b` = `NOT (a AND b)`).
+      A parser defect: this flag (and `unaryBindsLooser`, unary sign below `* / %`) is applied by Driver/Sql, which
+      re-parses the printed text of every expression with the shipped binding powers (Model/Parser). -/
   notBindsLooser : Bool := false
   /-- equi-join executed by the shipped merge join: a NULL key on the left loses every match -/
   mergeJoinNullKey : Bool := false
@@ -759,6 +761,20 @@ def updateRows (p : Row → Except Err Bool) (assign : Row → Except Err Row) (
     | .error x => .error x
     | .ok rows' => .ok (rows', (bs.filter id).length)
 
+/-- values of the SET expressions on the (old) row, each cast to the type of its column -/
+def evalSets (D : Defects) (tys : List Ty) (row : Row) (sets : List (Nat × Expr)) : Except Err (List (Nat × Value)) :=
+  mapE (fun (s : Nat × Expr) => match eval D tys row s.2 with
+    | .error x => .error x
+    | .ok v => match castTo (tys.getD s.1 .bigint) v with
+      | .error x => .error x
+      | .ok v' => .ok (s.1, v')) sets
+
+/-- the new value of a row selected by UPDATE -/
+def assignRow (D : Defects) (tys : List Ty) (sets : List (Nat × Expr)) (row : Row) : Except Err Row :=
+  match evalSets D tys row sets with
+  | .error x => .error x
+  | .ok as => .ok (setCols row as)
+
 inductive Stmt where
   | select (q : Select)
   | insert (t : Nat) (rows : List (List Expr))
@@ -797,15 +813,7 @@ def execStmt (D : Defects) (nullsFirst : Bool) (db : Db) : Stmt → Db × Outcom
   | .update t sets w => match db[t]? with
     | none => (db, .error .bind)
     | some td =>
-      let assign : Row → Except Err Row := fun row =>
-        match mapE (fun (s : Nat × Expr) => match eval D td.tys row s.2 with
-            | .error x => .error x
-            | .ok v => match castTo (td.tys.getD s.1 .bigint) v with
-              | .error x => .error x
-              | .ok v' => .ok (s.1, v')) sets with
-        | .error x => .error x
-        | .ok as => .ok (setCols row as)
-      match updateRows (predOf D td.tys w) assign td.rows with
+      match updateRows (predOf D td.tys w) (assignRow D td.tys sets) td.rows with
       | .error x => (db, .error x)
       | .ok (rows', n) => (setTable db t rows', .affected n)
   | .delete t w => match db[t]? with
